@@ -29,6 +29,7 @@ FAMILIES = {
     'C17': ['queries'],
     'C18': ['migrate'],
     'C19': ['instantiate', 'stake', 'batch'],
+    'C20': ['proto'],
     'C16': ['stake', 'rewards', 'batch', 'auth', 'ownership', 'fee_withdraw', 'validation', 'recover', 'halt', 'config',
             'queries', 'treasury', 'treasury_ownership', 'ibc', 'funds', 'instantiate', 'migrate'],
 }
